@@ -21,9 +21,15 @@ def run(tier, seed):
         runs.append({"args": ["--workload", "giant", "--rounds", "3" if q else "6"], "env": {"MIMALLOC_ARENA_RESERVE": "4GiB"}, "tag": "giant", "build": bld})
         if not q:
             runs.append({"args": ["--workload", "giant", "--rounds", "4", "--clock", "150"], "env": {"MIMALLOC_ARENA_RESERVE": "4GiB", "MIMALLOC_PURGE_DECOMMITS": "0"}, "tag": "giant.reset", "build": bld})
+    # nobody who touched the memory is alive any more: producer and consumer threads both exit (also with forced abandonment on)
+    for tag, env in (("relay", {}), ("relay.tspt", {"MIMALLOC_TARGET_SEGMENTS_PER_THREAD": "2"}),
+                     ("relay.tspt.os", {"MIMALLOC_TARGET_SEGMENTS_PER_THREAD": "2", "MIMALLOC_DISALLOW_ARENA_ALLOC": "1"})):
+        runs.append({"args": ["--workload", "relay", "--rounds", "3" if q else "6"], "env": dict(env), "tag": tag, "build": "rel"})
+        if not q:
+            runs.append({"args": ["--workload", "relay", "--rounds", "4"], "env": dict(env), "tag": tag, "build": "dbg"})
     return osfam.run_os("C11", tier, seed, runs, builds=["rel", "dbg"] if q else ["rel", "dbg", "sec"], own_guards=GUARDS, crash_decisive=False,
                         group=2 if q else 1,
-                        extra_cov={"workloads": ["small", "large", "huge", "mt", "mix", "giant"], "arena_configs": [a for a, _ in ARENAS],
+                        extra_cov={"workloads": ["small", "large", "huge", "mt", "mix", "giant", "relay"], "arena_configs": [a for a, _ in ARENAS],
                                    "rounds": [4] if q else [6, 12, 24]},
                         assumptions=["resident memory is the process RSS from /proc/self/statm (harness buffers are made resident up front); a tolerance of 96 pages per round is allowed",
                                      "allocator tables recognised by exact size (segment-map part) are exempt from AllReleased"])
